@@ -134,6 +134,19 @@ class CallMixin:
         if isinstance(cls, SV) and cls.ty == T.TYPE:
             vt = self.type_of(v, line)
             return vt == cls.term if exact else self.w.subclass_fn()(vt, cls.term)
+        if isinstance(cls, LazySeq):
+            cls = self.materialize(cls)
+        if isinstance(cls, ModuleRef):
+            cls = ClassRef(cls.name.split(".")[-1])  # a library class, e.g. datetime.timedelta
+        if isinstance(cls, SV) and cls.ty.kind == "list" and cls.ty.args[0] == T.TYPE:
+            # isinstance(v, tuple(list_of_classes)): some listed class is a base of type(v)
+            if cls.term is None:
+                return z3.BoolVal(False)
+            vt = self.type_of(v, line)
+            i = z3.Const(f"ci${len(self.binders)}", z3.IntSort())
+            ti = self.list_get(cls, i)
+            body = z3.And(0 <= i, i < self.list_len(cls), (vt == ti) if exact else self.w.subclass_fn()(vt, ti))
+            return self._q("exists", i, body)
         if isinstance(cls, SV) and cls.ty.kind in ("list", "tuple"):
             raise Unsupported("isinstance with a symbolic class tuple")
         if not isinstance(cls, ClassRef):
@@ -954,14 +967,47 @@ class CallMixin:
                 return SV(nv.term, t, ref=recv.ref)
         return SV(nv.term, t, ref=recv.ref, fresh=recv.fresh)
 
-    def kill_refs_through(self, ref: Ref | None):
-        """structural mutation of the list at `ref`: element places into it are no longer valid"""
+    def kill_refs_through(self, ref: Ref | None, removed=None, inserted=None, line: int = 0, same_as: Ref | None = None):
+        """Structural mutation of the list at `ref`.  Variables that alias elements of it are kept meaningful:
+        an alias of the removed element becomes a detached object (python: the object lives on outside the list),
+        aliases of other elements get their index shifted.  Must be called BEFORE the list itself is updated."""
         if ref is None:
             return
-        for name, v in self.st.env.items():
-            if isinstance(v, Ref) and v.cell == ref.cell and len(v.path) > len(ref.path) \
-                    and all(self._step_eq(a, b) for a, b in zip(v.path, ref.path)) and v.path[len(ref.path)][0] == "i":
-                self.st.dead_refs.add(v)
+        n = len(ref.path)
+        for name, v in list(self.st.env.items()):
+            if not (isinstance(v, Ref) and v.cell == ref.cell and len(v.path) > n
+                    and all(self._step_eq(a, b) for a, b in zip(v.path, ref.path)) and v.path[n][0] == "i"):
+                continue
+            idx = v.path[n][1]
+            if removed is None and inserted is None:
+                self.st.dead_refs.add(v)  # clear() etc.: no meaningful new place
+                continue
+            if removed is not None:
+                same = z3.eq(z3.simplify(idx), z3.simplify(removed))
+                if not same and same_as is not None and len(same_as.path) > n and same_as.cell == v.cell \
+                        and all(self._step_eq(a, b) for a, b in zip(v.path[: n + 1], same_as.path[: n + 1])):
+                    # lst.remove(x) with x an alias of an element: it is x itself that goes, provided no earlier
+                    # element compares equal to it (obligation)
+                    self.safety(idx == removed, "list.remove(x)-removes-x-itself", line)
+                    same = True
+                if not same:
+                    # is this alias the removed element?  decide by proof obligation in the common direction
+                    s = z3.Solver()
+                    s.set("timeout", 300)
+                    for p in self.st.pc:
+                        s.add(p)
+                    s.add(idx != removed)
+                    same = s.check() == z3.unsat
+                if same:
+                    elem = self.read_ref(Ref(v.cell, v.path[: n + 1]))
+                    cell = self.new_cell(SV(elem.term, elem.ty))
+                    self.st.env[name] = Ref(cell.cell, v.path[n + 1:])
+                    continue
+                self.safety(idx != removed, "alias-of-removed-list-element", line)
+                nidx = z3.If(idx > removed, idx - 1, idx)
+            else:
+                nidx = z3.If(idx >= inserted, idx + 1, idx)
+            self.st.env[name] = Ref(v.cell, v.path[:n] + (("i", z3.simplify(nidx)),) + v.path[n + 1:])
 
     def _step_eq(self, a, b):
         if a[0] != b[0]:
@@ -1060,7 +1106,7 @@ class CallMixin:
                                    z3.Lambda([j], z3.If(j < i0, z3.Select(arr(recv.term), j),
                                                         z3.If(j == i0, x.term, z3.Select(arr(recv.term), j - 1)))))
                 new = self._shift_axiom(recv, new, lambda jj: z3.If(jj < i0, jj, jj + 1), n)
-            self.kill_refs_through(recv.ref)
+            self.kill_refs_through(recv.ref, inserted=i0, line=line)
             self.mutate(recv, new, line)
             return SV(None, T.NONE)
         if recv.term is None:
@@ -1095,7 +1141,7 @@ class CallMixin:
                 new = self.mk_list(el_t, n - 1, z3.Lambda([j], z3.If(j < i0, z3.Select(arr(recv.term), j),
                                                                      z3.Select(arr(recv.term), j + 1))))
                 new = self._shift_axiom(recv, new, lambda jj: z3.If(jj < i0, jj, jj - 1), n, skip=i0)
-            self.kill_refs_through(recv.ref)
+            self.kill_refs_through(recv.ref, removed=i0, line=line)
             self.mutate(recv, new, line)
             return SV(valc, el_t, fresh=True)
         if name == "remove":
@@ -1111,7 +1157,8 @@ class CallMixin:
             new = self.mk_list(el_t, n - 1, z3.Lambda([j], z3.If(j < idx, z3.Select(arr(recv.term), j),
                                                                  z3.Select(arr(recv.term), j + 1))))
             new = self._shift_axiom(recv, new, lambda jj: z3.If(jj < idx, jj, jj - 1), n, skip=idx)
-            self.kill_refs_through(recv.ref)
+            self.kill_refs_through(recv.ref, removed=idx, line=line,
+                                   same_as=x.ref if isinstance(x, SV) else None)
             self.mutate(recv, new, line)
             self.last_removed_index = idx
             return SV(None, T.NONE)
